@@ -225,15 +225,16 @@ def run(facts, rep, tier):
         if tgt in facts.bodies:
             sort_fn_calls.append((bb, t, tgt))
             continue
-        if name in NEUTRAL_VEC:
-            if name == "iter":
-                print_iter_bb = bb
+        if name in NEUTRAL_VEC or name == "into_iter":
+            if name in ("iter", "into_iter"):
+                print_iter_bb = bb            # the printing pass (iter() for a fold, into_iter(&rows) for a `for` loop)
             continue
         if name in PERMUTATIONS:
             info = sort_call_info(facts, pb, du, t) if name in STABLE_SORTS | UNSTABLE_SORTS else None
             if info and info[1] == "<address>" and info[3] == "embed" and info[2] == +1 and addr_sort_bb is None:
                 addr_sort_bb = bb
-            if name in UNSTABLE_SORTS:
+            if name in UNSTABLE_SORTS and not (info and info[1] == "<address>" and info[3] == "embed"):
+                # (an unstable sort by the address itself is harmless: map keys are unique, there are no ties)
                 rep.add(Finding("R15.4", "%s : %s" % (pb.name, name), "unstable sort %s: earlier ordering (address order / previous letters) is not preserved among ties" % name, span_loc(t.get("span"))))
             continue
         if name in ("drop", "drop_in_place"):
@@ -261,6 +262,17 @@ def run(facts, rep, tier):
     fold_closures = [b for b in facts.closures_of(pb.name) if any("format_simple_display" in (callee_name(t) or "") for _, t in b.calls())]
     ok = len(fold_closures) == 1 and sum(1 for _, t in fold_closures[0].calls() if "format_simple_display" in (callee_name(t) or "")) == 1 \
         and not CFG(fold_closures[0]).loops()
+    if not ok and not fold_closures:
+        # a `for` loop in the printer itself: one formatter call per iteration (it dominates the back edges, no inner loop)
+        fcalls = [bi for bi, t in pb.calls() if "format_simple_display" in (callee_name(t) or "")]
+        ploops = cfg.loops()
+        if len(fcalls) == 1:
+            inside = [(h, blks) for h, blks in ploops.items() if fcalls[0] in blks]
+            if len(inside) == 1:
+                h, blks = inside[0]
+                backs = [a for a, hh in cfg.back_edges() if hh == h]
+                nexts = [bi for bi in blks if pb.blocks[bi]["term"]["k"] == "call" and pb.blocks[bi]["term"]["callee"].get("name") == "next"]
+                ok = bool(backs) and all(cfg.dominates(fcalls[0], a) for a in backs) and len(nexts) == 1
     rep.oblige(ok, ("format-once",))
     if not ok:
         rep.add(Finding("R15.1", "%s : row formatted other than once per element" % pb.name, "each row must be formatted exactly once per refresh", pb.loc()))
